@@ -514,7 +514,11 @@ func (app *App) stateManager() appState {
 			if errors.Is(app.GetCurrentSwitchover(new(Switchover)), dcs.ErrNotFound) {
 				app.logger.Error().Msgf("switchover was aborted")
 			} else {
-				if err != nil {
+				if errors.Is(err, errManagerLockLost) {
+					// we are not the manager any more: the request and its bookkeeping
+					// belong to the next manager now, so we must not write to it
+					app.logger.Error().Err(err).Msg("switchover interrupted")
+				} else if err != nil {
 					err = app.FailSwitchover(switchover, err)
 					if err != nil {
 						app.logger.Error().Err(err).Msg("failed to report switchover failure")
@@ -1245,6 +1249,9 @@ func (app *App) disableSemiSyncIfNonNeeded(node *mysql.Node, state *nodestate.No
 	}
 }
 
+// errManagerLockLost is returned by performSwitchover when a manager lock re-check is refused
+var errManagerLockLost = errors.New("manger lock lost during switchover, new manager should finish the process, leaving")
+
 // nolint: gocyclo, funlen
 func (app *App) performSwitchover(clusterState map[string]*nodestate.NodeState, activeNodes []string, switchover *Switchover, oldMaster string) error {
 	if switchover.To != "" {
@@ -1378,7 +1385,7 @@ func (app *App) performSwitchover(clusterState map[string]*nodestate.NodeState, 
 
 	// setting server read-only may take a while so we need to ensure we are still a manager
 	if !app.AcquireLock(pathManagerLock) || app.emulateError("set_read_only_lost_lock") {
-		return errors.New("manger lock lost during switchover, new manager should finish the process, leaving")
+		return errManagerLockLost
 	}
 
 	// collect active host positions
@@ -1449,7 +1456,7 @@ func (app *App) performSwitchover(clusterState map[string]*nodestate.NodeState, 
 	}
 	// catching up may take a while so we need to ensure we are still a manager
 	if !app.AcquireLock(pathManagerLock) || app.emulateError("catchup_lost_lock") {
-		return errors.New("manger lock lost during switchover, new manager should finish the process, leaving")
+		return errManagerLockLost
 	}
 	app.logger.Info().Msgf("switchover: new master %s caught up", newMaster)
 
